@@ -37,6 +37,9 @@ type Config struct {
 	// RealAuth: Authenticate is the one the ServerBuilder assembles (buildAuthenticate over
 	// the registered plain/key/external authenticators, which accept exactly one credential each)
 	RealAuth bool
+	// CertByCallback: the listener's TLS configuration supplies its certificate only through
+	// GetConfigForClient (no Certificates, no GetCertificate) - still a TLS-capable listener
+	CertByCallback bool
 }
 
 const (
@@ -47,15 +50,16 @@ const (
 )
 
 var Configs = []Config{
-	{"guest/none", []lime.AuthenticationScheme{lime.AuthenticationSchemeGuest}, []lime.SessionEncryption{none}, []lime.SessionCompression{cno}, false, false, false},
-	{"plain/none+tls", []lime.AuthenticationScheme{lime.AuthenticationSchemePlain}, []lime.SessionEncryption{none, tlsE}, []lime.SessionCompression{cno}, true, false, false},
-	{"plain+key/tls-only", []lime.AuthenticationScheme{lime.AuthenticationSchemePlain, lime.AuthenticationSchemeKey}, []lime.SessionEncryption{tlsE}, []lime.SessionCompression{cno}, true, false, false},
-	{"guest+plain+external/tls+none/gzip", []lime.AuthenticationScheme{lime.AuthenticationSchemeGuest, lime.AuthenticationSchemePlain, lime.AuthenticationSchemeExternal}, []lime.SessionEncryption{tlsE, none}, []lime.SessionCompression{cno, gz}, true, false, false},
-	{"transport/none+tls/no-tlsconfig", []lime.AuthenticationScheme{lime.AuthenticationSchemeTransport}, []lime.SessionEncryption{none, tlsE}, []lime.SessionCompression{cno}, false, false, false},
+	{"guest/none", []lime.AuthenticationScheme{lime.AuthenticationSchemeGuest}, []lime.SessionEncryption{none}, []lime.SessionCompression{cno}, false, false, false, false},
+	{"plain/none+tls", []lime.AuthenticationScheme{lime.AuthenticationSchemePlain}, []lime.SessionEncryption{none, tlsE}, []lime.SessionCompression{cno}, true, false, false, false},
+	{"plain+key/tls-only", []lime.AuthenticationScheme{lime.AuthenticationSchemePlain, lime.AuthenticationSchemeKey}, []lime.SessionEncryption{tlsE}, []lime.SessionCompression{cno}, true, false, false, false},
+	{"guest+plain+external/tls+none/gzip", []lime.AuthenticationScheme{lime.AuthenticationSchemeGuest, lime.AuthenticationSchemePlain, lime.AuthenticationSchemeExternal}, []lime.SessionEncryption{tlsE, none}, []lime.SessionCompression{cno, gz}, true, false, false, false},
+	{"transport/none+tls/no-tlsconfig", []lime.AuthenticationScheme{lime.AuthenticationSchemeTransport}, []lime.SessionEncryption{none, tlsE}, []lime.SessionCompression{cno}, false, false, false, false},
 	{Name: "builder:transport+guest/tls-only", Schemes: []lime.AuthenticationScheme{lime.AuthenticationSchemeTransport, lime.AuthenticationSchemeGuest}, Enc: []lime.SessionEncryption{tlsE}, Comp: []lime.SessionCompression{cno}, TLS: true, FromBuilder: true},
 	{Name: "builder-auth:transport+guest+plain+key+external/none", Schemes: []lime.AuthenticationScheme{lime.AuthenticationSchemeTransport, lime.AuthenticationSchemeGuest, lime.AuthenticationSchemePlain, lime.AuthenticationSchemeKey, lime.AuthenticationSchemeExternal}, Enc: []lime.SessionEncryption{none}, Comp: []lime.SessionCompression{cno}, FromBuilder: true, RealAuth: true},
-	{"guest/none/gzip-only", []lime.AuthenticationScheme{lime.AuthenticationSchemeGuest}, []lime.SessionEncryption{none}, []lime.SessionCompression{gz}, false, false, false},
-	{"plain/tls-only/gzip-only", []lime.AuthenticationScheme{lime.AuthenticationSchemePlain}, []lime.SessionEncryption{tlsE}, []lime.SessionCompression{gz}, true, false, false},
+	{"guest/none/gzip-only", []lime.AuthenticationScheme{lime.AuthenticationSchemeGuest}, []lime.SessionEncryption{none}, []lime.SessionCompression{gz}, false, false, false, false},
+	{Name: "plain/tls-only/cert-by-callback", Schemes: []lime.AuthenticationScheme{lime.AuthenticationSchemePlain}, Enc: []lime.SessionEncryption{tlsE}, Comp: []lime.SessionCompression{cno}, TLS: true, CertByCallback: true},
+	{"plain/tls-only/gzip-only", []lime.AuthenticationScheme{lime.AuthenticationSchemePlain}, []lime.SessionEncryption{tlsE}, []lime.SessionCompression{gz}, true, false, false, false},
 }
 
 // what a TCP transport reports as supported
@@ -128,6 +132,7 @@ func alphabet() []input {
 	a = append(a, input{name: "new", kind: "session", state: "new"})
 	a = append(a, input{name: "new+id", kind: "session", state: "new", id: "wrong"})
 	a = append(a, input{name: "new+uuid-id", kind: "session", state: "new", id: "uuid"})
+	a = append(a, input{name: "new(enc=none,comp=none)", kind: "session", state: "new", enc: "none", comp: "none"})
 	for _, p := range [][2]string{{"none", "none"}, {"tls", "none"}, {"none", "gzip"}, {"zzz", "none"}} {
 		a = append(a, input{name: "neg(" + p[0] + "," + p[1] + ")", kind: "session", state: "negotiating", id: "echo", enc: p[0], comp: p[1]})
 	}
@@ -416,6 +421,9 @@ func body(variant string, cfgs []Config, depth int, allowTLSRefusal bool) func(x
 		tcpCfg := &lime.TCPConfig{}
 		if cfg.TLS {
 			tcpCfg.TLSConfig = lib.TLSServerConfig()
+			if cfg.CertByCallback {
+				tcpCfg.TLSConfig = lib.TLSServerConfigByCallback()
+			}
 		}
 		curStep := func() int { return len(r.steps) }
 		var authenticate func(ctx context.Context, id lime.Identity, a lime.Authentication) (*lime.AuthenticationResult, error)
@@ -1861,7 +1869,7 @@ func Main(prop string) {
 	}
 	switch prop {
 	case "C10":
-		c := sel("plain+key/tls-only", "builder:transport+guest/tls-only", "plain/tls-only/gzip-only")
+		c := sel("plain+key/tls-only", "builder:transport+guest/tls-only", "plain/tls-only/gzip-only", "plain/tls-only/cert-by-callback")
 		add("server/tls-only/d3", "server", c, 3, true, 0, -1)
 		add("channel/tls-only/d3", "channel", c, 3, true, 0, -1)
 		add("server/tls-only/d5", "server", c, 5, true, -1, 0)
